@@ -38,13 +38,21 @@ structure Profile where
   overflowChecks : Bool := true
   /-- `usize::BITS` -/
   wordBits : Nat := 64
-  /-- the proposed repair of F3 (checked accumulation in `Parser::integer`): an overflowing width is
-  an `Err`, surfaced as `{ERROR: width too large}`. `false` = the code as it is. -/
-  widthCheck : Bool := false
+  /-- repair of F3 (commit 67091ff, checked accumulation in `Parser::integer`): an overflowing
+  width is an `Err`, surfaced as `{ERROR: width too large}`. `false` = the code before the repair. -/
+  widthCheck : Bool := true
+  /-- repair of F5 (commit eb8340d): `Parser::name` accepts `_` after the first character.
+  `false` = the code before the repair. -/
+  underscoreNames : Bool := true
   deriving Repr
 
+/-- the current code, 64-bit, overflow checks on (test and harness profile) -/
 def Profile.debug64 : Profile := {}
 def Profile.release64 : Profile := { overflowChecks := false }
+/-- the code before the repairs of F3 and F5 (kept for the historical witness theorems) -/
+def Profile.unfixed64 : Profile := { widthCheck := false, underscoreNames := false }
+def Profile.unfixedRelease64 : Profile :=
+  { overflowChecks := false, widthCheck := false, underscoreNames := false }
 
 /-- `char::is_alphabetic` and `char::is_alphanumeric` -/
 structure CharClass where
@@ -83,10 +91,15 @@ def eWidthTooLarge : List Char := cs!"width too large"
 /-- the five characters `Parser::text` stops at -/
 def isSpecial (c : Char) : Bool := c = '{' || c = '}' || c = '(' || c = ')' || c = '\\'
 
-/-- `Parser::name`: one alphabetic character, then alphanumeric ones -/
-def name (cc : CharClass) : List Char → List Char × List Char
+/-- the characters `Parser::name` accepts after the first: `is_alphanumeric() || ch == '_'` -/
+def nameChar (cc : CharClass) (P : Profile) (c : Char) : Bool :=
+  cc.alnum c || (P.underscoreNames && c == '_')
+
+/-- `Parser::name`: one alphabetic character, then alphanumeric ones or `_` -/
+def name (cc : CharClass) (P : Profile) : List Char → List Char × List Char
   | [] => ([], [])
-  | c :: r => if cc.alpha c then (c :: r.takeWhile cc.alnum, r.dropWhile cc.alnum) else ([], c :: r)
+  | c :: r =>
+    if cc.alpha c then (c :: r.takeWhile (nameChar cc P), r.dropWhile (nameChar cc P)) else ([], c :: r)
 
 /-- `Parser::integer`: the loop state is `cur`, `found` -/
 def integerLoop (P : Profile) : List Char → Nat → Bool → PR (Option Nat)
@@ -161,10 +174,10 @@ def doubled (c : Char) (r : List Char) : Option (List Char) :=
 error piece without parsing parameters; `parameters` fails only with `Profile.widthCheck`. -/
 def argumentWith (cc : CharClass) (P : Profile) (argsF : List Char → PR (List (List Piece)))
     (r : List Char) : PR (Option Piece) :=
-  match argsF (name cc r).2 with
+  match argsF (name cc P r).2 with
   | .ok args r2 =>
     match parameters P r2 with
-    | .ok p r3 => closeBrace (.arg (name cc r).1 args p) r3
+    | .ok p r3 => closeBrace (.arg (name cc P r).1 args p) r3
     | .fail e r3 => closeBrace (.error e) r3
     | .panic w => .panic w
     | .fuel => .fuel
